@@ -63,6 +63,8 @@ def cases(draw, tier):
     if t == "density" and draw(st.integers(0, 4)) == 0:
         c["sparse_dm"] = draw(st.integers(0, D - 1)) + D
     c["dict_form"] = draw(st.booleans())
+    if sc.get("unitaries") and draw(st.booleans()):
+        c["unitaries_load"] = {k: [draw(gen.ANGLE) for _ in range(4)] for k in sc["unitaries"]}
     c["space_default"] = draw(st.booleans())
     N = draw(st.integers(1, 6)) if draw(st.integers(0, 19)) else draw(st.integers(257, 700))     # occasionally a large data set
     U01 = st.floats(0, 1, exclude_max=True, allow_nan=False, width=64)
@@ -291,6 +293,31 @@ def check(c):
         if not risky:
             klA = TS.KL(state, lib_t, space, bases=bases)
             require(abs(klA - kl_want) <= 1e-8 * (1 + abs(kl_want)), "history:KL-after-restoring-parameters", f"after restoring the original parameters KL is {klA}, expected {kl_want}")
+    if sc.get("unitaries") and c.get("unitaries_load") and t != "positive":
+        # lifecycle: the state (already evaluated in rotated bases above) loads a file written by a twin with the same parameters but other
+        # matrices under the same letters; NLL (and KL) afterwards must use the loaded dictionary
+        import io
+        sc2 = dict(sc, unitaries=c["unitaries_load"])
+        twin = gen.build_state(sc2)
+        buf = io.BytesIO()
+        twin.save(buf)
+        buf.seek(0)
+        state.load(buf)
+        ud = gen.ref_unitary_dict(sc2)          # `born` and `inv_cond` read this name
+        rows2 = [(r_["basis"], r_["u"]) for r_ in c["rows"]]
+        want2, ok2, ks = 0.0, True, []
+        for b, u in rows2:
+            pb = born(model, b)
+            pb = pb / pb.sum()
+            k = int(torch.searchsorted(torch.cumsum(pb, 0), torch.tensor(u, dtype=R.F64), right=True).clamp(max=D - 1))
+            ks.append(k)
+            if float(pb[k]) < TINY or float(inv_cond(model, b)[k]) < 1e-6:
+                ok2 = False
+            want2 -= float(torch.log(pb[k])) / len(rows2)
+        if ok2:
+            sb2 = np.array([list(b) for b, _ in rows2]).reshape(len(rows2), n)
+            nll2 = TS.NLL(state, R.rows_from_indices(ks, n), space, sample_bases=sb2)
+            require(abs(nll2 - want2) <= 1e-8 * (1 + abs(want2)), "after-load:NLL", f"after load() of a file with other unitaries under the same letters NLL = {nll2}, expected {want2} with the loaded dictionary")
     hasY = any("Y" in b for b in (bases or []))
     nt = nonreal and (t == "positive" or hasY) and (not dens or c["A"]["r"] > 1)
     return {"nontrivial": nt, "excluded": excluded,
